@@ -1045,10 +1045,10 @@ def enumerate_items(thorough):
                 for b in binders:
                     for f in both if len(o) + len(i) <= 1 else ("head",):
                         add(("py", _T(b=b, o=o, i=i, f=f)))
-        with _Slice("py: binder x placement(depth<=1) x core uses"):
+        with _Slice("py: binder x placement(depth 1) x {bare, and, semi}"):
             for o, i in pl1:
                 for b in binders:
-                    for u in core:
+                    for u in ("bare", "and", "semi"):
                         add(("py", _T(b=b, o=o, i=i, u=u)))
         with _Slice("py: binder x wrapper; representative binders x wrapper x use"):
             for w in wraps:
@@ -1121,7 +1121,8 @@ def enumerate_items(thorough):
                             add(("del", _T(b=b, o=o), dform))
             for o in sc2:
                 for b in delb:
-                    add(("del", _T(b=b, o=o), "del"))
+                    if len(o) <= 1 or b in fam_reps:
+                        add(("del", _T(b=b, o=o), "del"))
             for b in delb:
                 for u in cmd_uses:
                     if b in fam_reps or u in core:
@@ -1152,11 +1153,11 @@ def enumerate_items(thorough):
 
     # ---------------- clause (d)
     with _Slice("atomic: program x broken tail x separator x position"):
-        progs = [_T(b=b) for b in binders]
+        progs = [_T(b=b) for b in (binders if thorough else fam_reps)]
         if not thorough:
             progs += [_T(o=o, i=i) for o, i in pl2]
             progs += [_T(u=u) for u in uses]
-            mid_progs = [_T(b=b) for b in binders if S.B[b]["family"] in ("assign", "def", "for", "param", "import", "global", "with")]
+            mid_progs = [_T(b=b) for b in fam_reps[:10]]
         else:
             progs += [_T(b=b, u="semi") for b in binders]
             progs += [_T(o=o, i=i, u=u) for o, i in pl3 for u in ("sub-flag", "semi")]
@@ -1194,13 +1195,13 @@ def enumerate_items(thorough):
                         continue  # who-made-the-change mixes: core uses (thorough: every use up to 2 events)
                     for first in firsts(u):
                         add(("hi", (first, mode, ev, u, "head", "n")))
-                    if uniform:
+                    if uniform and (thorough or u in core):
                         add(("hi", ("W", mode, ev, u, "arg", "n")))
         for ev in (hs2 + hs3 if thorough else hs2):
             if "+B" not in ev:
                 continue
             for mode in S.hist_modes(len(ev), mixed=False):
-                for u in uses:
+                for u in (uses if thorough else core):
                     for first in firsts(u):
                         add(("hi", (first, mode, ev, u, "head", "_")))
     return items, slices
